@@ -2,8 +2,8 @@
 """compact summary of replays/<P>/<tier>_signatures.json:  sigs.py P [tier] [maxlines] [detail_chars]"""
 import json, sys, collections, re
 prop = sys.argv[1]; tier = sys.argv[2] if len(sys.argv) > 2 else "quick"
-maxl = int(sys.argv[3]) if len(sys.argv) > 3 else 40
-dch = int(sys.argv[4]) if len(sys.argv) > 4 else 160
+maxl = int(sys.argv[3]) if len(sys.argv) > 3 else 25
+dch = int(sys.argv[4]) if len(sys.argv) > 4 else 0
 d = json.load(open(f"/verif/replays/{prop}/{tier}_signatures.json"))
 print(len(d), "distinct signatures")
 for x in d[:maxl]:
